@@ -47,6 +47,9 @@ impl Rng {
     pub fn pick<'a, T>(&mut self, xs: &'a [T]) -> &'a T {
         &xs[self.below(xs.len())]
     }
+    pub fn pick_str<'a>(&mut self, xs: &[&'a str]) -> &'a str {
+        xs[self.below(xs.len())]
+    }
     pub fn weighted(&mut self, w: &[u32]) -> usize {
         let total: u64 = w.iter().map(|x| *x as u64).sum();
         let mut r = self.next_u64() % total.max(1);
